@@ -183,6 +183,10 @@ pub fn run(ctx: &mut Ctx) {
                 for (k, v) in un.iter_mut() { if k.as_integer().map(i128::from) == Some(33) { *v = Value::Bytes(odd.clone()); } }
             }
             if s % 5 == 1 || s % 5 == 2 { un.push((Value::Integer(4.into()), Value::Bytes(vec![0x6b, 0x31]))); }
+            // a chain of two (document signer, IACA) and a chain given as an array of one
+            if s % 5 == 4 || s % 5 == 0 { use der::Encode; for (k, v) in un.iter_mut() { if k.as_integer().map(i128::from) == Some(33) {
+                let first = v.as_bytes().cloned().unwrap_or_default();
+                *v = if s % 5 == 4 { Value::Array(vec![Value::Bytes(first), Value::Bytes(pki.iaca.to_der().unwrap())]) } else { Value::Array(vec![Value::Bytes(first)]) }; } } }
         }
         // the MSO payload in a foreign encoding too (a different issuer's encoder): #6.24(bstr) with a shortest head around non-canonical MSO bytes
         if s % 4 != 3 {
@@ -216,6 +220,20 @@ pub fn run(ctx: &mut Ctx) {
         }
         let Some(em) = em else { continue };
         doc.namespaces = NonEmptyMap::new(NS.to_string(), em);
+        // a second namespace holding items under the SAME identifiers (as `sex` is in the core and the AAMVA namespace), other bytes
+        const NS2: &str = "org.iso.18013.5.1.aamva";
+        let mut items2: Vec<(String, Vec<u8>)> = vec![];
+        if s % 2 == 0 {
+            let mut em2: Option<NonEmptyMap<String, Tag24<IssuerSignedItem>>> = None;
+            for (j, (ident, _)) in items.iter().enumerate().take(2) {
+                let st = rng.gen_range(1..16);
+                let (inner, _) = gen_item_bytes(&mut rng, ident, 1000 + j as u32, st, j % 2 == 1);
+                let Ok(t) = Tag24::<IssuerSignedItem>::from_bytes(inner.clone()) else { continue };
+                match em2.as_mut() { None => em2 = Some(NonEmptyMap::new(ident.clone(), t)), Some(m) => { m.insert(ident.clone(), t); } }
+                items2.push((ident.clone(), inner));
+            }
+            if let Some(em2) = em2 { doc.namespaces.insert(NS2.to_string(), em2); }
+        }
         // storage cycles
         let mut cur = doc.clone();
         let mut stored_ok = true;
@@ -241,8 +259,16 @@ pub fn run(ctx: &mut Ctx) {
         dev = match device::SessionManager::parse(dev.stringify().unwrap()) { Ok(d) => d, Err(_) => { lost(ctx, "SessionManager"); continue } };
         let elems: Vec<String> = items.iter().map(|(i, _)| i.clone()).collect();
         let er: Vec<&str> = elems.iter().map(|s| s.as_str()).collect();
-        let reqs = vec![ItemsRequest { doc_type: MDL.into(), namespaces: sess::simple_namespaces(&er), request_info: None }];
-        dev.prepare_response(&reqs, sess::permit_all(&[MDL], &er));
+        let mut req_ns = sess::simple_namespaces(&er);
+        let mut permitted = sess::permit_all(&[MDL], &er);
+        if !items2.is_empty() {
+            let mut de: Option<isomdl::definitions::device_request::DataElements> = None;
+            for (i, _) in &items2 { match de.as_mut() { None => de = Some(NonEmptyMap::new(i.clone(), false)), Some(d) => { d.insert(i.clone(), false); } } }
+            req_ns.insert("org.iso.18013.5.1.aamva".to_string(), de.unwrap());
+            permitted.get_mut(MDL).unwrap().insert("org.iso.18013.5.1.aamva".to_string(), items2.iter().map(|(i, _)| i.clone()).collect());
+        }
+        let reqs = vec![ItemsRequest { doc_type: MDL.into(), namespaces: req_ns, request_info: None }];
+        dev.prepare_response(&reqs, permitted);
         dev = match device::SessionManager::parse(dev.stringify().unwrap()) { Ok(d) => d, Err(_) => { lost(ctx, "SessionManager while signing"); continue } };
         while dev.get_next_signature_payload().is_some() { dev.submit_next_signature(vec![1; 64]).unwrap(); }
         let Some(msg) = dev.retrieve_response() else { continue };
@@ -259,6 +285,11 @@ pub fn run(ctx: &mut Ctx) {
                 .filter_map(|t| match t { Value::Tag(24, b) => b.as_bytes().cloned(), _ => None }).collect();
             for (_, inner) in &items { sent_ok &= sent_items.contains(inner); }
             sent_ok &= sent_items.len() == items.len();
+            // ... and each namespace carries ITS OWN items
+            let sent2: Vec<Vec<u8>> = get(is, "nameSpaces").and_then(|n| get(&n, "org.iso.18013.5.1.aamva")).and_then(|a| a.as_array().cloned()).unwrap_or_default().into_iter()
+                .filter_map(|t| match t { Value::Tag(24, b) => b.as_bytes().cloned(), _ => None }).collect();
+            for (_, inner) in &items2 { sent_ok &= sent2.contains(inner); }
+            sent_ok &= sent2.len() == items2.len();
             if let Some(iav) = get(is, "issuerAuth") {
                 let iab = to_bytes(&iav);
                 // model view of the transferred issuerAuth vs the one put in
